@@ -27,7 +27,7 @@ def run(res, ctx):
     rng = random.Random(seed * 122949829 + 8)
     st = collections.Counter()
     seen, samples, corr = set(), [], []
-    n = 750 if tier == "quick" else 3000
+    n = 750 if tier == "quick" else 15000
     A, B, I = [], [], []
     for _ in range(n):
         a_rows = gen.gen_history(rng, sec="FOO", p_invalid=rng.choice([0, 0.2])) + (
